@@ -642,10 +642,12 @@ class Executor:
             # Rust `as`: NaN -> 0, saturating
             lo, hi = ty_range(to)
             bits = INT_BITS[to]
-            fr = z3.fpRoundToIntegral(z3.RTZ(), v)
-            # exact integer value of fr when in range, via real conversion
-            real = z3.fpToReal(fr)
-            iv = z3.ToInt(real)
+            # in-range conversion through the bit-vector theory (FP and BV are both bit-blasted;
+            # fp.to_real would drag in mixed real/float reasoning the solver handles poorly)
+            if to[0] == "u":
+                iv = z3.BV2Int(z3.fpToUBV(z3.RTZ(), v, z3.BitVecSort(bits)), False)
+            else:
+                iv = z3.BV2Int(z3.fpToSBV(z3.RTZ(), v, z3.BitVecSort(bits)), True)
             flo = z3.FPVal(float(lo), z3.Float64())
             fhi = z3.FPVal(float(hi), z3.Float64())  # rounds up to 2^bits for 64-bit: handled by >=
             res = z3.If(z3.fpIsNaN(v), z3.IntVal(0),
